@@ -398,6 +398,7 @@ func (fr *frame) store(T types.Type, addr value, v value) {
 		if a == nil {
 			fr.tpanic("invalid memory address or nil pointer dereference")
 		}
+		fr.guardCheck(a, true)
 		store(T, a, v)
 	case *symRef:
 		st := fr.m.st()
@@ -417,6 +418,7 @@ func (fr *frame) loadPtr(T types.Type, addr value) value {
 		if a == nil {
 			fr.tpanic("invalid memory address or nil pointer dereference")
 		}
+		fr.guardCheck(a, false)
 		return load(T, a)
 	case *symRef:
 		st := fr.m.st()
